@@ -16,7 +16,7 @@ from . import cluster_units as CU
 from .common import call_name, short
 from .counters import check_coupling
 
-FLOORS = {'C02.P1': 6, 'C02.P2': 5, 'C02.P3': 3, 'C02.P4': 1}
+FLOORS = {'C02.P1': 4, 'C02.P2': 5, 'C02.P3': 3, 'C02.P4': 1}
 
 PRIVATE_STATE = {'_clusters', '_resources', '_tasks', '_usage_data', '_ingest'}
 
